@@ -992,6 +992,18 @@ class Emitter:
         ck = n.get('castKind')
         sub = inner(n)[-1]
         ty = qt(n)
+        if ck == 'LValueToRValue' and self.opts.get('volatile_read_check'):
+            # goto-instrument --nondet-volatile replaces the read by a fresh value and with it the dereference that carried
+            # cbmc's pointer checks: keep the validity of the location as an explicit obligation
+            try:
+                tq = T.parse(qt(sub))
+            except T.TypeParseError:
+                tq = None
+            if tq is not None and tq[0] in ('n', 'p') and 'volatile' in tq[-1]:
+                self.lowerings['volatile read: explicit r_ok obligation'] += 1
+                a = self.addr(self.E(sub))
+                return ('(*({ __typeof__(%s) __vp = %s; __CPROVER_assert(__CPROVER_r_ok((const void *)__vp, sizeof(*__vp)), '
+                        '"read of a volatile (sandbox) location lies inside a readable object"); __vp; }))' % (a, a))
         if ck in ('LValueToRValue', 'FunctionToPointerDecay', 'ArrayToPointerDecay'):
             return self.E(sub)
         if ck == 'NoOp':
